@@ -22,6 +22,7 @@ for _n in (1, 2):
         SPEC_ID[_t] = len(SPEC_ID)
 MD5_ID = {hashlib.md5(",".join(TARGS[a][1] for a in k).encode()).hexdigest(): v for k, v in SPEC_ID.items() if k}
 _UNKNOWN_MD5 = {}
+_UNKNOWN_CACHE = {}
 
 
 def spec_id(targ):
@@ -107,7 +108,12 @@ def snap_term(fam, snap):
             sl.append(f"(({i}, {parse_method(m)}), {b(k == 'S')})")
         for cn, ds in s["c"].items():
             mm = re.match(r"^(\w+)_(packer|unpacker)$", cn)
-            ca.append(f"(({i}, ({b(mm.group(2) == 'packer')}, {FMT_ID[mm.group(1)]})), [{'; '.join(str(DIALECT_ID[d]) for d in ds)}])")
+            if mm and mm.group(1) in FMT_ID:
+                key = f"({b(mm.group(2) == 'packer')}, {FMT_ID[mm.group(1)]})"
+            else:
+                # a cache attribute that is not __dialect_<format>_(un)packer_cache__: a key no model cache has (=> mismatch)
+                key = f"({b('unpacker' not in cn)}, {_UNKNOWN_CACHE.setdefault(cn, 900 + len(_UNKNOWN_CACHE))})"
+            ca.append(f"(({i}, {key}), [{'; '.join(str(DIALECT_ID.get(d, 900)) for d in ds)}])")
     return f"([{'; '.join(sl)}], [{'; '.join(ca)}])"
 
 
@@ -223,7 +229,7 @@ def correspondence(ctx, cases, limit=None, tag=""):
             continue
         try:
             t, n = case_term(case)
-        except (KeyError, ValueError) as e:
+        except Exception as e:       # an observation the rendering does not know: a broken tie, not a crash
             ctx.not_shown("correspondence lazy-model", f"cannot render case: {e!r}")
             continue
         terms.append(t)
